@@ -125,6 +125,17 @@ def check_program(case, col=None):
     for mode in ("django", "isolated"):
         f, info = solo(prog, mode)
         fails.extend(f)
+        if case.get("dynamic") and not f and info["model"] == "ok" and info.get("res") is not None and info["res"].exc is None:
+            # the same page with every component tag written as {% component "dynamic" is="cX" %}: same inject() results
+            resd = pgrun.run_real(prog, mode, {"dynamic": "name"}, budget=40 * info["instances"] + 100)
+            if resd.exc is not None:
+                fails.append(("[%s] dynamic-component variant raised %r; the tag form injects %r" % (mode, resd.exc, sorted(map(list, info["res"].rec.injected))[:8]), "c05-dynamic-exc:" + exc_bucket(resd.exc)))
+            else:
+                want, got = Counter(map(tuple, info["res"].rec.injected)), Counter(map(tuple, resd.rec.injected))
+                if want != got:
+                    fails.append(("[%s] dynamic-component variant: inject() results differ from the tag form\n only tag form: %r\n only dynamic:  %r" % (mode, sorted((want - got).elements())[:8], sorted((got - want).elements())[:8]), "c05-dynamic-inject"))
+            if col is not None:
+                col.count("variant:dynamic")
         if col is not None:
             nt = info["model"] == "ok" and info.get("n_payload", 0) >= 1 and (info.get("n_payload", 0) >= 2 or ps["shadow"] or ps["slotfill"])
             labels = ["mode:" + mode, "model:" + info["model"]]
@@ -226,7 +237,7 @@ def plan(tier, seed, scale=1.0):
 def run_shard(spec):
     col = Collector()
     if spec["kind"] == "main":
-        strat = st.builds(lambda p: {"kind": "main", "program": p}, pgstrat.programs(CFG))
+        strat = st.builds(lambda p, d: {"kind": "main", "program": p, "dynamic": d < 34}, pgstrat.programs(CFG), st.integers(0, 99))
         return hyp_search(strat, lambda case: check_program(case, col), col, max_examples=spec["n"], seed=spec["seed"], shrink=False, attribute=attribute, post_min=lambda c, still: pgmin.minimize(c, still, 300))
     strat = st.builds(
         lambda ps, fa, m: {"kind": "seq", "programs": ps, "fail_after": (fa + [False] * 4)[: len(ps)], "mode": m},
